@@ -548,6 +548,8 @@ def _worker(args):
         runner.reset()
         try:
             io = runner.run(lines)
+        except impl.Diverged:  # a watchdog that fired outside ImplRunner._try: never let it kill the pool worker (the pool would wait forever)
+            io = ["err diverges"]
         except Exception as e:  # noqa  (the harness could not digest what the code under test did: a disagreement, not a crash of the check)
             if os.environ.get("HX_STRICT"):
                 raise
